@@ -84,6 +84,10 @@ def run(ctx):
                      'state', 2)
     ctx.rule('R02f', 'an absent optional argument consumes nothing: the reader is moved back to the '
                      'first token including its leading whitespace', 2)
+    ctx.rule('R02j', 'a ReplaceParsingState delta never installs the state recorded on a node (the state the '
+                     'node was parsed in) as the state for what follows', 2)
+    ctx.rule('R02i', 'sibling agreement: every argument parser built by get_arg_parser_instance whose class '
+                     'takes allow_pre_space receives the standard parser\'s own allow_pre_space', 8)
     ctx.rule('R02h', 'the escape character followed by begin/end starts an environment token only when '
                      'the next character is not a macro-name letter (\\endgroup, \\beginx are macros), for '
                      'both words alike', 1)
@@ -203,6 +207,54 @@ def run(ctx):
     _rest(ctx, repo)
     # ------------------------------------------------------------ R02h
     _begin_end_word_boundary(ctx, repo)
+    first_tokens_complete(ctx, repo, 'R02f')
+    # ------------------------------------------------------------ R02j (who may replace the state)
+    n_rep = 0
+    for mod_ in sorted(repo.modules.values(), key=lambda m_: m_.name):
+        for c in ast.walk(mod_.tree):
+            if not (isinstance(c, ast.Call) and call_name(c) == 'ParsingStateDeltaReplaceParsingState'):
+                continue
+            v = kwarg(c, 'set_parsing_state') or (c.args[0] if c.args else None)
+            if v is None:
+                continue
+            n_rep += 1
+            fn_ = enclosing_func(c)
+            exprs = [v]
+            if isinstance(v, ast.Name) and fn_ is not None:
+                exprs += [s_.value for s_ in iter_own(fn_) if isinstance(s_, ast.Assign) and any(
+                    isinstance(t_, ast.Name) and t_.id == v.id for t_ in s_.targets)]
+            node_state = [a for e in exprs for a in ast.walk(e) if isinstance(a, ast.Attribute)
+                          and a.attr == 'parsing_state' and isinstance(a.value, ast.Name)
+                          and a.value.id not in ('self',)]
+            ctx.decide('R02j', not node_state, mod_, c,
+                       'the replacing state is one computed for what follows (%s)' % short(v, 40),
+                       'the state that replaces the collector\'s current state is taken from %s, the state a '
+                       'node was PARSED in: inside an optional/delimited argument that is the outer state, '
+                       'without the promoted delimiters, so after such a macro the closing `]` of the '
+                       'argument is no longer recognised' % short(node_state[0]) if node_state else '',
+                       construct='%s: %s' % (getattr(fn_, '_qualname', '<module>'), short(c, 70)))
+    if n_rep < 2:
+        raise AnalysisError('only %d ParsingStateDeltaReplaceParsingState constructions found' % n_rep)
+    # ------------------------------------------------------------ R02i (sibling agreement)
+    sm_ = repo.mod(STD)
+    gi_ = sm_.methods('LatexStandardArgumentParser').get('get_arg_parser_instance')
+    if gi_ is None:
+        raise AnalysisError('anchor vanished: get_arg_parser_instance')
+    ctors = [c for c in iter_own(gi_) if isinstance(c, ast.Call) and isinstance(c.func, ast.Name)
+             and c.func.id.endswith('Parser') and isinstance(getattr(c, '_parent', None), ast.Return)]
+    takes = {c.func.id for c in ctors if kwarg(c, 'allow_pre_space') is not None}
+    for c in ctors:
+        if c.func.id not in takes:
+            continue
+        v = kwarg(c, 'allow_pre_space')
+        ctx.decide('R02i', v is not None and unparse(v) == 'self.allow_pre_space', sm_, c,
+                   '%s receives allow_pre_space=self.allow_pre_space' % c.func.id,
+                   'this %s is built %s while its siblings in get_arg_parser_instance receive '
+                   'allow_pre_space=self.allow_pre_space: for this argument type whitespace before the '
+                   'argument changes the structure (the argument is reported absent and its opening '
+                   'delimiter becomes a plain character)' % (
+                       c.func.id, 'without allow_pre_space' if v is None else 'with allow_pre_space=%s' % short(v)),
+                   construct='get_arg_parser_instance: %s' % short(c, 70))
     ctx.assume('equality of the produced tree with the grammar derivation of the document is not '
                'decided; only dispatch, slot and delimiter discipline are')
     return 'other', (
@@ -346,6 +398,55 @@ def _begin_end_word_boundary(ctx, repo):
         else:
             ctx.refuted('R02h', tm, cs.node, 'begin/end are recognised with the pattern %r: %s'
                         % (pat, why), construct=cons)
+
+
+def first_tokens_complete(ctx, repo, rule):
+    """parse_initial(): when the opening delimiter is not found, the exception lists every token
+    that was read (the caller resets the reader to first_tokens[0], so a token read but not listed
+    -- e.g. a skipped comment -- is lost when the optional argument turns out to be absent)"""
+    from .. import symex
+    dm = repo.mod(DELIM)
+    n = 0
+    for q, f in sorted(dm.functions.items()):
+        if f.name != 'parse_initial':
+            continue
+        rd = [a.arg for a in f.args.args if 'reader' in a.arg]
+        if not rd:
+            continue
+        rd = rd[0]
+        reads = [c for c in ast.walk(f) if isinstance(c, ast.Call) and call_name(c) in ('next_token', 'peek_token')
+                 and call_recv(c) is not None and unparse(call_recv(c)) == rd and call_name(c) == 'next_token']
+        in_loop = [c for c in reads if any(isinstance(p_, (ast.While, ast.For)) for p_ in parents(c)
+                                           if any(x is p_ for x in ast.walk(f)))]
+        try:
+            w = symex.Walker(is_sink=lambda c: call_name(c) == 'next_token' and call_recv(c) is not None
+                             and unparse(call_recv(c)) == rd, want_raises=True, trace=True)
+            cases = [c for c in w.run(f) if c.kind == 'raise' and isinstance(c.sub, ast.Call)
+                     and call_name(c.sub).endswith('OpeningDelimiterNotFound')]
+        except symex.TooManyPaths as e:
+            ctx.unknown(rule, dm, f, str(e), construct='%s: first_tokens' % q)
+            continue
+        for cs in cases:
+            n += 1
+            ft = kwarg(cs.sub, 'first_tokens') or (cs.sub.args[0] if cs.sub.args else None)
+            nread = len(cs.env.get('#trace', ()))
+            listed = len(ft.elts) if isinstance(ft, (ast.List, ast.Tuple)) else None
+            cons = '%s: first_tokens of the not-found error' % q
+            if in_loop:
+                ctx.refuted(rule, dm, in_loop[0], 'tokens are read in a loop (%s) but the not-found error lists %s: '
+                            'when the optional argument is absent the reader is reset to the first listed '
+                            'token, so the tokens read before it (e.g. skipped comments) are lost'
+                            % (short(in_loop[0], 50), short(ft) if ft is not None else 'no tokens'), construct=cons)
+            elif listed is None:
+                ctx.unknown(rule, dm, cs.node, 'first_tokens is %s' % (short(ft) if ft is not None else 'missing'),
+                            construct=cons)
+            else:
+                ctx.decide(rule, listed == nread, dm, cs.node,
+                           '%d token(s) read, %d listed for the reset' % (nread, listed),
+                           '%d token(s) were read but %d are listed in first_tokens: the others are lost '
+                           'when the reader is reset' % (nread, listed), construct=cons)
+    if not n:
+        raise AnalysisError('no parse_initial raising OpeningDelimiterNotFound found')
 
 
 def closing_predicates(ctx, repo, rule):
